@@ -123,6 +123,7 @@ class _validate_map:
 
 @target(VP, "_validate_record")
 class _validate_record:
+    call_behaviors = dict(schema_name="anyns")
     types = dict(datum="py", schema="dict", named_schemas="dict", parent_ns="py", raise_errors="bool", options="dict")
     returns = "bool"
     modifies = []
@@ -214,6 +215,7 @@ class _validate_map_raising:
 
 @target(VP, "_validate_record", behavior="raising")
 class _validate_record_raising:
+    call_behaviors = dict(schema_name="anyns")
     types = dict(datum="py", schema="dict", named_schemas="dict", parent_ns="py", raise_errors="bool", options="dict")
     returns = "bool"
     modifies = []
